@@ -2,6 +2,11 @@ module verifharness
 
 go 1.17
 
-require github.com/datastax/go-cassandra-native-protocol v0.0.0
+require (
+	github.com/datastax/go-cassandra-native-protocol v0.0.0
+	github.com/golang/snappy v0.0.3
+	github.com/pierrec/lz4/v4 v4.0.3
+	github.com/rs/zerolog v1.20.0
+)
 
 replace github.com/datastax/go-cassandra-native-protocol => /repo
